@@ -120,8 +120,13 @@ F_CODINGS = ["f", "C(f)", "T(f)", "S(f)", "C(f, Sum)", "C(f, Treatment('b'))", "
 G_CODINGS = ["g", "C(g)", "S(g)", "T(g, 'q')", "C(g, Sum)"]
 
 
+# w takes non-integer values (quarters): a product that is truncated or rounded shows
+SHAPES = ["F", "F + G", "F + x", "F:G", "F + G + F:G", "x + F:G", "0 + F", "0 + F + G", "F:x", "F + F:x",
+          "w + F:w", "F:w", "F + F:w", "w + F + F:w", "0 + F:w"]
+
+
 def _swap_formula(rng, which):
-    shape = rng.choice(["F", "F + G", "F + x", "F:G", "F + G + F:G", "x + F:G", "0 + F", "0 + F + G", "F:x", "F + F:x"])
+    shape = rng.choice(SHAPES)
     rng2_f = rng.choice(F_CODINGS)
     rng2_g = rng.choice(G_CODINGS)
     return "y ~ " + shape.replace("F", rng2_f).replace("G", rng2_g)
@@ -131,7 +136,7 @@ def _swap_variants(seed):
     import random
     rng = random.Random(seed)
     fr = gen_dm.make_frame(rng, factorial=True, cats=["f", "g"], nlev={"f": rng.choice([2, 3, 4]), "g": rng.choice([2, 3])})
-    shape = rng.choice(["F", "F + G", "F + x", "F:G", "F + G + F:G", "x + F:G", "0 + F", "0 + F + G", "F:x", "F + F:x"])
+    shape = rng.choice(SHAPES)
     fs = rng.sample(F_CODINGS, 3)
     gs = rng.sample(G_CODINGS, 2)
     forms = ["y ~ " + shape.replace("F", f).replace("G", g) for f in fs for g in gs]
@@ -293,10 +298,10 @@ def oracle(c):
             return None
         mats.append((f, np.asarray(d.common.design_matrix, dtype=float)))
     f0, X0 = mats[0]
-    r0 = rank([[int(round(v)) for v in row] for row in X0])
+    r0 = rank([[Fraction(float(v)).limit_denominator(10 ** 6) for v in row] for row in X0])
     for f, X in mats[1:]:
-        r = rank([[int(round(v)) for v in row] for row in X])
-        rj = rank([[int(round(v)) for v in row] for row in np.column_stack([X0, X])])
+        r = rank([[Fraction(float(v)).limit_denominator(10 ** 6) for v in row] for row in X])
+        rj = rank([[Fraction(float(v)).limit_denominator(10 ** 6) for v in row] for row in np.column_stack([X0, X])])
         if not (r == r0 == rj):
             return f"replacing the coding changes the column space: {f0!r} rank {r0}, {f!r} rank {r}, joint rank {rj}"
     return None
